@@ -518,11 +518,11 @@ func c15Enum(e, maxN int) []string {
 	return nil
 }
 
-// c15EnumMax: trees of up to 6 nodes in the quick tier, up to 8 nodes when the shards are large (thorough tier).
+// c15EnumMax: trees of up to 6 nodes in the quick tier, up to 7 nodes when the shards are large (thorough tier).
 func c15EnumMax() int {
 	def := 6
-	if vhEnvInt("VERIF_N", 0) >= 4000 {
-		def = 8
+	if vhEnvInt("VERIF_N", 0) >= 2500 {
+		def = 7
 	}
 	return vhEnvInt("C15_ENUM_MAXN", def)
 }
